@@ -315,8 +315,8 @@ def adjust_intervals(
         raise ValueError("Supplied intervals are empty, can't append new" " intervals")
 
     if t_min is not None:
-        # Find the intervals that end at or after t_min
-        first_idx = np.argwhere(intervals[:, 1] >= t_min)
+        # Find the intervals that end after t_min
+        first_idx = np.argwhere(intervals[:, 1] > t_min)
 
         if len(first_idx) > 0:
             # If we have events below t_min, crop them out
@@ -334,8 +334,8 @@ def adjust_intervals(
                 labels.insert(0, start_label)
 
     if t_max is not None:
-        # Find the intervals that begin after t_max
-        last_idx = np.argwhere(intervals[:, 0] > t_max)
+        # Find the intervals that begin at or after t_max
+        last_idx = np.argwhere(intervals[:, 0] >= t_max)
 
         if len(last_idx) > 0:
             # We have boundaries above t_max.
